@@ -298,12 +298,22 @@ package types
 //@ pure sameMap(a int, b int) bool
 //@ axiom [sameMap-refl] forall a int :: sameMap(a, a)
 
+//@ func validate
+//@   trusted denomination check by regular expression (regexp) and sign check of the amount
+//@   pure_fn
+//@   ensures result == nil ==> amount.i != nil && bigv[amount.i] >= 0
+// NewCoin: the coin carries exactly the denomination and amount given (panics on a negative amount)
 //@ func NewCoin
-//@   trusted constructor (validates denom and amount, panics otherwise); result not constrained here
-//@   pure_fn
+//@   props C41,C20,C36
+//@   modifies nothing
+//@   ensures result.Denom == denom && result.Amount.i == amount.i && amount.i != nil && bigv[amount.i] >= 0
+// singleAmt/singleDenom: the amount/denomination of a coin set built from exactly one coin
+//@ pure singleAmt(cs Coins) int
+//@ pure singleDenom(cs Coins) Str
 //@ func NewCoins
-//@   trusted constructor (sorts, validates); result not constrained here
+//@   trusted constructor (sorts, drops zero coins, panics on duplicates/invalid): for ONE coin the set's amount and denomination are the coin's
 //@   pure_fn
+//@   ensures len(coins) == 1 ==> singleAmt(result) == bigv[coins[0].Amount.i] && singleDenom(result) == coins[0].Denom
 
 // ---- C42: transaction indexer ------------------------------------------------------------
 //@ func endKey
@@ -384,3 +394,23 @@ package types
 //@ func (*EventManager).Events
 //@   trusted accessor
 //@   pure_fn
+
+// ---- C15: the fee comparison as a call event -------------------------------------------------
+// feeChk*: arguments and outcome of the most recent Coins.IsAllGTE call
+//@ ghost feeChkN int
+//@ ghost feeChkOK bool
+//@ ghost feeChkHave Coins
+//@ ghost feeChkWant Coins
+//@ func (Coins).IsAllGTE
+//@   trusted call event: records the two coin sets compared and the outcome (the comparison itself belongs to C41's coin layer, not yet proved)
+//@   modifies feeChkN, feeChkOK, feeChkHave, feeChkWant
+//@   ensures feeChkN == old(feeChkN) + 1 && feeChkOK == result && feeChkHave == coins && feeChkWant == coinsB
+
+// ---- C24: unstaking-queue keys --------------------------------------------------------------
+// timeKey: the sortable textual form of an instant (time.Format with a fixed-width UTC layout)
+//@ pure timeKey(ns int) Bytes
+//@ axiom [timeKey-len] forall ns int :: len(timeKey(ns)) == 29
+//@ func FormatTimeBytes
+//@   trusted time formatting (time.Format, fixed-width sortable UTC layout): a function of the instant
+//@   pure_fn
+//@   ensures result != nil && fresh(result) && bytes(result) == timeKey(unixNano(t))
